@@ -112,7 +112,7 @@ def leaf_case(kind, pre, name, variant, L):
     doc, dparams = DOCS[kind]
     if len(variant) > 4:
         # a float argument (1.5, the default tolerance 1e-8) against a symbolic int leaf stalls z3
-        dparams = [("u1", "Union[bool, None, str]")]
+        dparams = [("u1", "Optional[str]")]   # (a symbolic bool against a float goes through the same int/real mix)
     if name in ("factor_of", "has_factor"):
         doc = {"value": "[u1, 0, 6, [1], {'k': 0}]", "key": "{3: u1, 2: 0, 0: 1, None: 2}", "index": "[u1, 0, 'a']"}[kind]
         dparams = [("u1", "Union[int, bool, None]")]
